@@ -9,7 +9,7 @@ import world
 import worldscen as ws
 
 R = '@R@'
-PATH_MAX, NAME_MAX = 4096, 255
+PATH_MAX, NAME_MAX = 4096, 255      # replaced in run() by the limits the tree under check is compiled against (gen_tables.platform_macros)
 
 
 def deep(prefix, total):
@@ -840,9 +840,16 @@ def unit_paths(rep, sc):
 def run(rep):
     rng = random.Random(rep.seed)
     sc = vlib.Scratch()
+    global PATH_MAX, NAME_MAX
+    try:
+        import gen_tables
+        lim = gen_tables.platform_macros(sc.src, ['PATH_MAX', 'NAME_MAX'])
+        PATH_MAX, NAME_MAX = lim['PATH_MAX'], lim['NAME_MAX']
+    except Exception as e:                    # the translator reports the same failure as a broken obligation (lean_gate)
+        vlib.log('platform limits not read from the headers (%s): windows placed around %d / %d' % (e, PATH_MAX, NAME_MAX))
     tools = proc.Tools(sc)
     vlib.lean_gate(rep, 'C18', sc, [
-        'platform limits PATH_MAX = 4096, NAME_MAX = 255 (the values the model is instantiated with)',
+        'platform limits PATH_MAX = %d, NAME_MAX = %d as cc -E -dM reports them for the translation units of the tree (regenerated into Gen.pathMax / Gen.nameMax, which the model is defined with; C18_limits)' % (PATH_MAX, NAME_MAX),
         'the file listing uses find(1) because paths beyond PATH_MAX cannot be named in one system call',
     ])
     jobs = []
@@ -918,6 +925,7 @@ def run(rep):
     if rep.tier == 'thorough':
         # two path-carrying inputs near their limits in the same run, every combination of lengths (tools/c18pairs.py)
         pairs_cov = __import__('c18pairs').stage(rep, tools, int(os.environ.get('VERIF_C18_WINDOW', '0')) or 6)
+    import envlen; envcov = envlen.stage(rep, sc, tools, tier=rep.tier); envcov['unit'] = envlen.unit(rep, sc, rep.tier)   # HOME / TMPDIR / TZ / host name around their buffer sizes
     unit = unit_paths(rep, sc)
     if unit['model_mismatches'] and not rep.violations:
         rep.violation({'obligation': 'correspondence util.c (pathjoin, pathslice) <-> Model/Flags.lean', 'disagreements': unit['model_mismatches'],
@@ -926,8 +934,12 @@ def run(rep):
     if ustart['model_mismatches'] and not rep.violations:
         rep.violation({'obligation': 'correspondence mdsort.c (defaultconf, readenv) <-> Model/Start.lean', 'disagreements': ustart['model_mismatches'],
                        'examples': ustart['model_examples']}, False)
+    if envcov['unit']['model_mismatches'] and not rep.violations:
+        rep.violation({'obligation': 'correspondence mdsort.c (readenv incl. TZ) <-> Model/Start.lean', 'disagreements': envcov['unit']['model_mismatches'],
+                       'examples': envcov['unit']['model_examples']}, False)
     vlib.lean_conclude(rep)
     rep.coverage.update({
+        'environment_length': envcov,
         'unit_start': ustart,
         'start_rule': 'no -f option: HOME a real directory of PATH_MAX-16 .. PATH_MAX-10 characters holding the real .mdsort.conf and a decoy configuration '
                       'under every proper prefix of that name, in a normal run, with -n and with -d: fits (HOME + 13 < PATH_MAX) => exactly that file is '
